@@ -7,6 +7,7 @@ func init() {
 	vHarnesses["H_C03_encode_deep"] = H_C03_encode_deep
 	vHarnesses["H_C03_anyxml"] = H_C03_anyxml
 	vHarnesses["H_C03_anyxml_lists"] = H_C03_anyxml_lists
+	vHarnesses["H_C03_encode_prefix"] = H_C03_encode_prefix
 }
 
 type vJSpec struct {
@@ -287,4 +288,39 @@ func H_C03_anyxml_lists() {
 	vC03check(x, err, root)
 	XMLEscapeChars(false)
 	vCover("lists")
+}
+
+// encoding under a non-default attribute prefix that is itself a name character: keys that
+// equal the prefix, start with it, end with it or repeat it
+func H_C03_encode_prefix() {
+	vResetDecOpts()
+	p := []string{"_", "a", ""}[vChoose(3)]
+	SetAttrPrefix(p)
+	inner := map[string]interface{}{}
+	n := 1 + vChoose(3)
+	for i := 0; i < n; i++ {
+		k := vNondetString(1, 2, "_a")
+		_, dup := inner[k]
+		vAssume(!dup)
+		inner[k] = vNondetString(1, 1, "xy")
+	}
+	m := Map{"r": inner}
+	var x []byte
+	var err error
+	switch vChoose(4) {
+	case 0:
+		x, err = m.Xml()
+	case 1:
+		x, err = m.XmlIndent("", " ")
+	case 2:
+		x, err = AnyXml(inner, "r")
+	default:
+		x, err = AnyXmlIndent(inner, "", " ", "r")
+	}
+	vAssert(err == nil, "encode(prefix): a Map of strings encodes without error")
+	m2, derr := NewMapXml(x)
+	SetAttrPrefix("-")
+	vAssert(derr == nil && vSingleRoot(x), "encode(prefix): the output is well formed")
+	vAssert(len(m2) == 1 && vDeepEq(m2["r"], inner), "encode(prefix): every entry comes back - as an attribute if its key is longer than the prefix and starts with it, else as a child element")
+	vCover("prefix")
 }
